@@ -853,7 +853,7 @@ func Eval(c Case) evid.Verdict {
 
 // evalOutcome also returns the observed outcome class for the label histograms.
 func evalOutcome(c Case) (evid.Verdict, string) {
-	if c.Kind == "e2e" {
+	if c.Kind == "e2e" || c.Kind == "basic" {
 		return evalE2E(c)
 	}
 	if c.Kind == "slack" {
